@@ -1,6 +1,139 @@
-//! (stub) modes of this area are added here; see main.rs for the calling convention.
-use crate::Args;
+//! CGI response writer modes (C20): `fastcgi_server::cgi::response::{write_headers, http_headers,
+//! simple_redirect}` on a `Vec<u8>` and on a bounded `&mut [u8]`.
+//!
+//! hdr_write <code> <cap> <reason> <pre> <n1> <v1> <n2> <v2> ...
+//! hdr_http  <code> <cap> <reason> <pre> <n1> <v1> ...        (builds an http::Response)
+//! redirect  <cap> <pre> <loc>
+//! http_reasons                                                (generator support, not a case mode)
+//!
+//! `cap` = u64::MAX selects a `Vec<u8>` that already holds `pre`; any other value a slice of `cap`
+//! free bytes placed behind `pre` in a larger buffer. `<reason>` is ignored here: the real
+//! `http::StatusCode::canonical_reason` is what the crate uses (the model gets it from the case
+//! line, so a wrong table entry on either side is a disagreement).
+//! Observation: `[flag] [count]|- <destination contents>`; flag 1 = Ok(count), 0 = Err(WriteZero),
+//! `[2]` = the code is not a constructible `StatusCode`.
+use crate::{arg, argn, bytes, nums, Args};
+use fastcgi_server::cgi::response::{http_headers, simple_redirect, write_headers};
+use std::io;
 
-pub fn dispatch(_mode: &str, _a: &Args) -> Option<Args> {
-    None
+const VEC: u128 = u64::MAX as u128;
+/// generator error: the case cannot be expressed through the API used by the mode
+const BAD_CASE: u128 = 999_996;
+const FILL: u8 = 0xA5;
+
+pub fn dispatch(mode: &str, a: &Args) -> Option<Args> {
+    Some(match mode {
+        "hdr_write" => hdr_write(a),
+        "hdr_http" => hdr_http(a),
+        "redirect" => redirect(a),
+        "http_reasons" => http_reasons(),
+        _ => return None,
+    })
+}
+
+/// One call of a crate function with a concrete writer type (no `dyn Write` in between).
+trait Job {
+    fn run<W: io::Write>(&self, w: W) -> io::Result<usize>;
+}
+
+/// Runs `job` on the destination selected by `cap` and reports what the destination holds afterwards.
+fn with_dest(cap: u128, pre: &[u8], job: &impl Job) -> Args {
+    let (res, contents) = if cap == VEC {
+        let mut v = pre.to_vec();
+        let res = job.run(&mut v);
+        (res, v)
+    } else {
+        let cap = usize::try_from(cap).expect("capacity");
+        let mut store = vec![FILL; pre.len() + cap];
+        store[..pre.len()].copy_from_slice(pre);
+        let (res, remaining) = {
+            let mut slice: &mut [u8] = &mut store[pre.len()..];
+            let res = job.run(&mut slice);
+            (res, slice.len())
+        };
+        let filled = cap - remaining;
+        // nothing behind the write position may have been touched
+        assert!(store[pre.len() + filled..].iter().all(|&b| b == FILL), "bytes behind the cursor changed");
+        store.truncate(pre.len() + filled);
+        (res, store)
+    };
+    match res {
+        Ok(n) => vec![vec![1], vec![n as u128], nums(&contents)],
+        Err(e) => {
+            assert_eq!(e.kind(), io::ErrorKind::WriteZero, "unexpected error kind");
+            vec![vec![0], vec![], nums(&contents)]
+        },
+    }
+}
+
+struct WriteHeaders<'a>(http::StatusCode, &'a [(Vec<u8>, Vec<u8>)]);
+impl Job for WriteHeaders<'_> {
+    fn run<W: io::Write>(&self, w: W) -> io::Result<usize> {
+        write_headers(w, self.0, self.1.iter().map(|(n, v)| (&n[..], &v[..])))
+    }
+}
+
+struct HttpHeaders<'a>(&'a http::Response<()>);
+impl Job for HttpHeaders<'_> {
+    fn run<W: io::Write>(&self, w: W) -> io::Result<usize> {
+        http_headers(w, self.0)
+    }
+}
+
+struct Redirect<'a>(&'a str);
+impl Job for Redirect<'_> {
+    fn run<W: io::Write>(&self, w: W) -> io::Result<usize> {
+        simple_redirect(w, self.0)
+    }
+}
+
+fn status(a: &Args) -> Option<http::StatusCode> {
+    u16::try_from(argn(a, 0)).ok().and_then(|c| http::StatusCode::from_u16(c).ok())
+}
+
+fn pairs(a: &Args) -> Vec<(Vec<u8>, Vec<u8>)> {
+    a.get(4..).unwrap_or(&[]).chunks_exact(2).map(|c| (bytes(&c[0]), bytes(&c[1]))).collect()
+}
+
+pub fn hdr_write(a: &Args) -> Args {
+    let Some(st) = status(a) else { return vec![vec![2]] };
+    let pre = bytes(&arg(a, 3));
+    let hs = pairs(a);
+    with_dest(argn(a, 1), &pre, &WriteHeaders(st, &hs))
+}
+
+pub fn hdr_http(a: &Args) -> Args {
+    let Some(st) = status(a) else { return vec![vec![2]] };
+    let pre = bytes(&arg(a, 3));
+    let mut b = http::response::Builder::new().status(st);
+    for (n, v) in pairs(a) {
+        let (Ok(name), Ok(val)) = (http::HeaderName::from_bytes(&n), http::HeaderValue::from_bytes(&v)) else {
+            return vec![vec![BAD_CASE]];
+        };
+        // from_bytes lower-cases; the generator only sends canonical (lower-case) names
+        if name.as_str().as_bytes() != &n[..] {
+            return vec![vec![BAD_CASE]];
+        }
+        b = b.header(name, val);
+    }
+    let Ok(resp) = b.body(()) else { return vec![vec![BAD_CASE]] };
+    with_dest(argn(a, 1), &pre, &HttpHeaders(&resp))
+}
+
+pub fn redirect(a: &Args) -> Args {
+    let pre = bytes(&arg(a, 1));
+    let loc = bytes(&arg(a, 2));
+    let Ok(loc) = std::str::from_utf8(&loc) else { return vec![vec![BAD_CASE]] };
+    with_dest(argn(a, 0), &pre, &Redirect(loc))
+}
+
+/// One list per status code 100..=999: the canonical reason phrase, empty when there is none.
+pub fn http_reasons() -> Args {
+    (100u16..=999)
+        .map(|c| {
+            let st = http::StatusCode::from_u16(c).expect("100..=999 is constructible");
+            assert_eq!(st.as_u16(), c);
+            st.canonical_reason().map_or_else(Vec::new, |r| nums(r.as_bytes()))
+        })
+        .collect()
 }
